@@ -466,7 +466,7 @@ theorem bounds_of_save (fmt : R → List UInt8) (pr : List UInt8 → Option R) (
 theorem Rep.of_same {P : Offsets.Parsers (Prim R) (Dict R)} {bytes : List UInt8} {st st' : St (Prim R)}
     (h : Rep P bytes st) (hs : SameBackend st st') : Rep P bytes st' := by
   obtain ⟨h1, h2, h3, h4, h5⟩ := hs
-  exact ⟨by rw [h3]; exact h.len, h.small, by rw [h4]; exact h.header, by rw [h5]; exact h.xref,
+  exact ⟨by rw [h3]; exact h.len, h.small, by rw [h4]; exact h.header, by rw [h5, h2]; exact h.xref,
     by rw [h1]; exact h.objs, by rw [h2]; exact h.secs⟩
 
 /-- the invariant of byte-level histories -/
